@@ -4,6 +4,7 @@ import Driver.C18
 import Driver.C13
 import Driver.C20
 import Driver.C14
+import Driver.C02
 /-! `votca_driver`: reads protocol lines `Cxx <op> <args…>` (implementation outputs included) on stdin,
 runs the executable model definitions (the ones the theorems are about) on the same inputs, prints
 `DISAGREE` / `PROPFAIL` lines for the cases that do not check and a `SUMMARY` at the end. -/
@@ -26,6 +27,7 @@ def dispatch (toks : List String) : Verdict :=
   | "C13" :: r => Driver.C13.handle r
   | "C20" :: r => Driver.C20.handle r
   | "C14" :: r => Driver.C14.handle r
+  | "C02" :: r => Driver.C02.handle r
   | _ => { agree := false, msg := "bad-line unknown property", tag := "bad" }
 
 partial def loop (h : IO.FS.Stream) (maxPrint : Nat) (acc : DAcc) : IO DAcc := do
@@ -33,7 +35,11 @@ partial def loop (h : IO.FS.Stream) (maxPrint : Nat) (acc : DAcc) : IO DAcc := d
   if line.isEmpty then return acc
   let l := line.trimAscii.toString
   if l.isEmpty || l.startsWith "#" then loop h maxPrint acc else
-  let v := dispatch (l.splitOn " " |>.filter (· ≠ ""))
+  let toks := l.splitOn " " |>.filter (· ≠ "")
+  -- a NaN or infinity among the implementation's outputs is a failure of any numeric property (inputs never contain one)
+  let v := if toks.any (fun t => t == "nan" || t == "inf" || t == "-inf")
+           then { agree := false, propOk := false, msg := "non-finite value in the implementation output", tag := "non-finite" }
+           else dispatch toks
   let mut a := { acc with total := acc.total + 1, tags := acc.tags.insert v.tag (acc.tags.getD v.tag 0 + 1) }
   if v.agree then a := { a with agree := a.agree + 1 } else
     a := { a with disagree := a.disagree + 1 }
